@@ -1,7 +1,7 @@
 From Coq Require Import List NArith Bool Arith Permutation Lia.
 Import ListNotations.
 Require Import MV.Common.Interleave MV.C05.Model MV.C05.Spec MV.C05.Exec.
-Require Import MV.C05.ProofsSeq MV.C05.ProofsInv MV.C05.ProofsCor MV.C05.ProofsUniq MV.C05.ProofsCons MV.C05.ProofsProg MV.C05.ProofsSnap MV.C05.ProofsEmpty MV.C05.ProofsOrder MV.C05.ProofsSpec MV.C05.ProofsTrace1 MV.C05.ProofsTrace2 MV.C05.ProofsTrace3 MV.C05.ProofsTrace4 MV.C05.ProofsTrace5 MV.C05.ProofsTrace6 MV.C05.ProofsTrace7.
+Require Import MV.C05.ProofsSeq MV.C05.ProofsInv MV.C05.ProofsCor MV.C05.ProofsUniq MV.C05.ProofsCons MV.C05.ProofsProg MV.C05.ProofsSnap MV.C05.ProofsEmpty MV.C05.ProofsOrder MV.C05.ProofsSpec MV.C05.ProofsTrace1 MV.C05.ProofsTrace2 MV.C05.ProofsTrace3 MV.C05.ProofsTrace4 MV.C05.ProofsTrace5 MV.C05.ProofsTrace6 MV.C05.ProofsTrace7 MV.C05.ProofsTrace8.
 Local Open Scope nat_scope.
 Require Import MV.C05.Properties.
 
@@ -224,6 +224,20 @@ Check (C05_spec_conservation_on_model : forall c : case, known_class c = None ->
   nodupb rhs && forallb (fun i => memb (px i) rhs) (pinfos tr 0 (progs_of c))
   && Nat.eqb (length rhs) (length (pinfos tr 0 (progs_of c))) = true).
 Print Assumptions C05_spec_conservation_on_model.
+Check (C05_is_empty_true_beyond_B_threads : length (fst many_case) = 67 /\ known_class many_case = None /\
+  (let '(_, rss, done, final, _) := run_case many_case in
+   nth 66 rss [] = [REmpty true] /\ done = true /\ length (concat final) = 129) /\
+  spec_ok many_case (run_case many_case) = false).
+Print Assumptions C05_is_empty_true_beyond_B_threads.
+Check (C05_race_example_run_ok : length (fst race_case) <= 64 /\ known_class race_case = None /\ spec_ok race_case (run_case race_case) = true).
+Print Assumptions C05_race_example_run_ok.
+Check (C05_spec_pub_positions_on_model : forall c : case,
+  let '(tr, _, _, _, _) := run_case c in
+  let cf := fst (run_gen BS true true c) in
+  forall i w, In i (pinfos tr 0 (progs_of c)) -> ppub i = Some w ->
+    w < length tr /\ genuine (progs_of c) (px i) /\
+    exists b j, slot (heap (fst cf)) b j = Some (px i) /\ pub (heap (fst cf)) b j).
+Print Assumptions C05_spec_pub_positions_on_model.
 Check (C05_popcount_len_refuted : let cf := fst (exec (step BS true true) site (init_config [[CPush 1%N]; [CPush 2%N]; [CData]]) popcount_sched) in
   let k := getb (heap (fst cf)) 0 in
   option_map pcl (nth_error (snd cf) 2) = Some (WD false 0 []) /\
